@@ -63,6 +63,13 @@ type ErrV struct{ ID int }
 
 func (e ErrV) Error() string { return fmt.Sprintf("ev%d", e.ID) }
 
+// ErrNotFound is the "no such row" error the cacheNode harness configures its nodes with (NewNode's errNotFound).  A
+// loader scripted with err=1 ek=5 returns it: doTake then writes the not-found placeholder into the cache and every
+// caller of the key gets ErrNotFound without another query - in the model the placeholder is simply the instance that
+// execution created, so a call that got ErrNotFound is printed as val=<id of the execution that reported not-found>
+// (800000 if no execution of its key did).
+var ErrNotFound = errors.New("c07: not found")
+
 // PanicErr is the error value of a pk=2 panic.
 type PanicErr struct{ ID int }
 
@@ -176,6 +183,8 @@ func (c *Call) EP() int { return c.ep }
 // mkErr is the error value of call c's function (kind ek).
 func mkErr(c *Call) error {
 	switch c.ek {
+	case 5:
+		return ErrNotFound
 	case 2:
 		return fmt.Errorf("c07 wrapped: %w", &Err{c.id})
 	case 3:
@@ -373,7 +382,16 @@ func RunSection(cfg verifh.Cfg, ops []string, mk func(cfg verifh.Cfg) Target) []
 				default:
 					c.val = "bad"
 				}
-				if err != nil {
+				if err == ErrNotFound && mode == "rm" {
+					// the cached not-found placeholder: name the execution that reported not-found for this key
+					c.val = "800000"
+					for _, d := range calls {
+						if d.key == c.key && d.ek == 5 && d.serr && !d.spanic && d.runs > 0 {
+							c.val = fmt.Sprint(d.id)
+							break
+						}
+					}
+				} else if err != nil {
 					c.err = errName(err, v, calls)
 				}
 				mu.Unlock()
@@ -641,6 +659,10 @@ func Gen(r *verifh.Rng, nsec int, via string) []verifh.Section {
 					ek := r.Pick(1, 1, 2, 3)
 					if mode != "rm" && r.Chance(1, 5) {
 						ek = 4
+					}
+					if via == "cacheNode.Take" && r.Chance(1, 3) {
+						// the loader reports "no such row": negative caching (setCacheWithNotFound, the placeholder)
+						ek = 5
 					}
 					op += fmt.Sprintf(" ek=%d", ek)
 				}
